@@ -25,7 +25,7 @@ type xmpSpec struct {
 }
 
 func checkC13(p *Prog, r *Report) {
-	r.Explain("The tokenizer's behaviour over all packets (look-ahead windows, quoting, white space) is a run-time matter and is not decided. Decided: NSTBL — the namespace and name tables are mutually inverse over the declared constants: IdentifyNamespace(String(ns)) == ns and IdentifyName(String(n)) == n for every declared constant, by constant folding of the tables (a property whose name is missing from either table is silently dropped); XDISPATCH — for every property of the independent table spec/xmp_props.json, the packet spelling is identified to a name constant, the namespace prefix dispatches in (*XMP).parser to the struct of that namespace, and that struct's parse method has a case for the constant that stores into the field(s) the table assigns; FORMS — attribute form and element form reach the per-namespace parsers through the same function: every call of a parse method is in (*XMP).parser, and in readTag/readSeqTags every successful readAttribute and readTagValue is followed by xmp.parser on every path; ROOTSKIP — readRootTag keeps scanning when ReadSlice reports a full buffer without the start of the root element (bytes before the root element are skipped).")
+	r.Explain("The tokenizer's behaviour over all packets (look-ahead windows, quoting, white space) is a run-time matter and is not decided. Decided: NSTBL — the namespace and name tables are mutually inverse over the declared constants: IdentifyNamespace(String(ns)) == ns and IdentifyName(String(n)) == n for every declared constant, by constant folding of the tables (a property whose name is missing from either table is silently dropped); XDISPATCH — for every property of the independent table spec/xmp_props.json, the packet spelling is identified to a name constant, the namespace prefix dispatches in (*XMP).parser to the struct of that namespace, and that struct's parse method has a case for the constant that stores into the field(s) the table assigns; FORMS — attribute form and element form reach the per-namespace parsers through the same function: every call of a parse method is in (*XMP).parser, and in readTag/readSeqTags every successful readAttribute and readTagValue is followed by xmp.parser on every path; QUOTE — wherever the tokenizer compares a byte with a quote constant the byte is at a constant position (the opening quote), and the byte read there is what the search for the closing quote looks for (bytes.IndexByte needle or comparison operand): a value delimited by one quote character may contain the other; RELIDX — an index returned by a search in x[a:] is relative to a: wherever it (or a sum containing it) indexes or slices x itself, a is part of the sum; ROOTSKIP — readRootTag keeps scanning when ReadSlice reports a full buffer without the start of the root element (bytes before the root element are skipped).")
 	r.Trusted("spec/xmp_props.json (written from the XMP specification)", "bufio.ReadSlice returns ErrBufferFull when the delimiter is not within one buffer")
 	fd := &folder{p: p}
 	ruleRoundTrip(p, r, fd, "NSTBL", "xmp/xmpns", "Namespace", "String", "IdentifyNamespace", true)
@@ -33,6 +33,9 @@ func checkC13(p *Prog, r *Report) {
 	ruleXDispatch(p, r)
 	ruleForms(p, r)
 	ruleRootSkip(p, r)
+	ruleQuote(p, r)
+	r.Floor("QUOTE", 1)
+	ruleRelIdx(p, r) // no floor: rewriting the one search as a loop removes the instance without breaking anything
 	r.Floor("NSTBL", 100)
 	r.Floor("XDISPATCH", 40)
 	r.Floor("FORMS", 4)
@@ -437,6 +440,190 @@ func ruleRootSkip(p *Prog, r *Report) {
 		r.OK("ROOTSKIP", key, p.posStr(f.Pos()), "err == bufio.ErrBufferFull leads back to the loop header")
 	} else {
 		r.Bad("ROOTSKIP", key, p.posStr(f.Pos()), "when more than one buffer of bytes precedes the root element ReadSlice reports ErrBufferFull; that case does not continue the scan, so the packet is not found (bytes before the root element are not skipped)")
+	}
+}
+
+// ruleQuote: "with either quote character" — the closing quote is the character that opened the value.
+func ruleQuote(p *Prog, r *Report) {
+	sp := p.SSAPkg("xmp")
+	if sp == nil {
+		r.Undecided("QUOTE", "xmp | quote handling", "-", "package not loaded")
+		return
+	}
+	isQuote := func(v ssa.Value) bool {
+		k, ok := constInt(v)
+		return ok && (k == '"' || k == '\'')
+	}
+	byteLoad := func(v ssa.Value) (*ssa.IndexAddr, bool) {
+		u, ok := stripChange(v).(*ssa.UnOp)
+		if !ok || u.Op != token.MUL {
+			return nil, false
+		}
+		ia, ok := u.X.(*ssa.IndexAddr)
+		return ia, ok
+	}
+	for _, f := range pkgFns(sp, p) {
+		type pos struct {
+			buf ssa.Value
+			k   int64
+		}
+		opening := map[pos]bool{}
+		bad, at := "", ""
+		n := 0
+		eachInstr(f, func(_ *ssa.BasicBlock, _ int, in ssa.Instruction) {
+			bo, ok := in.(*ssa.BinOp)
+			if !ok || (bo.Op != token.EQL && bo.Op != token.NEQ) {
+				return
+			}
+			x, y := bo.X, bo.Y
+			if isQuote(x) {
+				x, y = y, x
+			}
+			if !isQuote(y) {
+				return
+			}
+			ia, ok := byteLoad(x)
+			if !ok {
+				return
+			}
+			n++
+			if at == "" {
+				at = p.posStr(instrPos(bo))
+			}
+			k, ok := constInt(ia.Index)
+			if !ok {
+				bad = fmt.Sprintf("a byte at a variable position (%s) is compared with a quote constant at %s: the closing quote must be the character that opened the value, not either quote character", shortVal(ia.Index), p.posStr(instrPos(bo)))
+				return
+			}
+			opening[pos{ia.X, k}] = true
+		})
+		if n == 0 {
+			continue
+		}
+		key := fnName(f) + " | closing quote = opening quote"
+		if bad != "" {
+			r.Bad("QUOTE", key, at, bad)
+			continue
+		}
+		// the opening byte must be what the closing search looks for
+		used := false
+		eachInstr(f, func(_ *ssa.BasicBlock, _ int, in ssa.Instruction) {
+			u, ok := in.(*ssa.UnOp)
+			if !ok || u.Op != token.MUL {
+				return
+			}
+			ia, ok := u.X.(*ssa.IndexAddr)
+			if !ok {
+				return
+			}
+			k, ok := constInt(ia.Index)
+			if !ok || !opening[pos{ia.X, k}] {
+				return
+			}
+			for _, rf := range refs(u) {
+				switch x := rf.(type) {
+				case ssa.CallInstruction:
+					if sc := x.Common().StaticCallee(); sc != nil && sc.Pkg != nil && sc.Pkg.Pkg.Path() == "bytes" && strings.HasPrefix(sc.Name(), "IndexByte") {
+						used = true
+					}
+				case *ssa.BinOp:
+					if x.Op == token.EQL || x.Op == token.NEQ {
+						other := x.X
+						if other == ssa.Value(u) {
+							other = x.Y
+						}
+						if _, isLoad := byteLoad(other); isLoad {
+							used = true
+						}
+					}
+				}
+			}
+		})
+		if used {
+			r.OK("QUOTE", key, at, "quote constants are compared at the opening position only; the byte read there is the needle of the closing search")
+		} else {
+			r.Bad("QUOTE", key, at, "the opening quote is recognised but the byte read there is not what the closing search looks for")
+		}
+	}
+}
+
+// ruleRelIdx: r = bytes.IndexByte(x[a:], c) (any Index* of bytes/strings on a sub-slice with a non-zero low bound):
+// every index or slice bound into x whose affine form contains r must contain a with the same coefficient.
+func ruleRelIdx(p *Prog, r *Report) {
+	for _, f := range p.AllLibFns() {
+		eachCall(f, func(site ssa.CallInstruction) {
+			c := site.Common()
+			sc := c.StaticCallee()
+			if sc == nil || sc.Pkg == nil || (sc.Pkg.Pkg.Path() != "bytes" && sc.Pkg.Pkg.Path() != "strings") {
+				return
+			}
+			if !strings.HasPrefix(sc.Name(), "Index") && !strings.HasPrefix(sc.Name(), "LastIndex") {
+				return
+			}
+			if len(c.Args) == 0 {
+				return
+			}
+			sl, ok := c.Args[0].(*ssa.Slice)
+			if !ok || sl.Low == nil {
+				return
+			}
+			low := affineOf(sl.Low, 0)
+			if k, isC := low.isConst(); isC && k == 0 {
+				return
+			}
+			res := site.Value()
+			if res == nil {
+				return
+			}
+			key := fmt.Sprintf("%s | %s.%s(%s[%s:]) result used relative to the same base", fnName(f), sc.Pkg.Pkg.Name(), sc.Name(), shortVal(sl.X), shortVal(sl.Low))
+			at := p.posStr(instrPos(site))
+			uses, bad := 0, ""
+			check := func(in ssa.Instruction, v ssa.Value, what string) {
+				if v == nil {
+					return
+				}
+				a := affineOf(v, 0)
+				cf := a.coef(res)
+				if cf == 0 {
+					return
+				}
+				uses++
+				for t, lv := range low.Terms {
+					if a.Terms[t] != cf*lv {
+						bad = fmt.Sprintf("%s %s of %s at %s contains the search result but not the offset %s the search started at: the result is relative to %s[%s:]", what, a, shortVal(sl.X), p.posStr(instrPos(in)), low, shortVal(sl.X), shortVal(sl.Low))
+					}
+				}
+				if len(low.Terms) == 0 && a.C < cf*low.C {
+					bad = fmt.Sprintf("%s %s of %s at %s contains the search result but not the constant offset %d the search started at", what, a, shortVal(sl.X), p.posStr(instrPos(in)), low.C)
+				}
+			}
+			eachInstr(f, func(_ *ssa.BasicBlock, _ int, in ssa.Instruction) {
+				switch x := in.(type) {
+				case *ssa.IndexAddr:
+					if x.X == sl.X {
+						check(in, x.Index, "index")
+					}
+				case *ssa.Index:
+					if x.X == sl.X {
+						check(in, x.Index, "index")
+					}
+				case *ssa.Slice:
+					if x.X == sl.X {
+						check(in, x.Low, "low bound")
+						check(in, x.High, "high bound")
+					}
+				case *ssa.Lookup:
+					if x.X == sl.X {
+						check(in, x.Index, "index")
+					}
+				}
+			})
+			if bad != "" {
+				r.Bad("RELIDX", key, at, bad)
+			} else {
+				r.OK("RELIDX", key, at, fmt.Sprintf("%d uses as an index/bound into %s, each with the start offset added", uses, shortVal(sl.X)))
+			}
+		})
 	}
 }
 
